@@ -78,6 +78,7 @@ func joinFlow(post bool) flowSpec {
 }
 
 func genFlow(rng *lib.RNG) flowSpec {
+	var fs flowSpec
 	switch rng.Weighted([]int{3, 4, 3, 3}) {
 	case 0:
 		k := rng.Range(1, 3)
@@ -85,37 +86,58 @@ func genFlow(rng *lib.RNG) flowSpec {
 		for i := range cs {
 			cs[i] = rng.Range(0, 5)
 		}
-		return chainFlow(cs)
+		fs = chainFlow(cs)
 	case 1:
-		return splitFlow(rng.Bool(), rng.Bool(), rng.Intn(2))
+		fs = splitFlow(rng.Bool(), rng.Bool(), rng.Intn(2))
 	case 2:
-		return fanFlow(rng.Bool())
+		fs = fanFlow(rng.Bool())
 	default:
-		return joinFlow(rng.Bool())
+		fs = joinFlow(rng.Bool())
 	}
+	// hold the actions of some nodes back (blocked-action schedules)
+	for i := range fs.nodes {
+		switch fs.nodes[i].kind {
+		case "pass", "split", "fan":
+			fs.nodes[i].gated = rng.Chance(2, 5)
+		}
+	}
+	return fs
 }
 
-// genOps draws a schedule: writes interleaved with answers at sinks that have an unanswered
-// request (tracked with the reference semantics), several requests in flight. In join workflows
-// a source gets its next write only after its previous one was answered (what a ManyToOneNode
-// answers to a queued, unpaired packet behind unanswered ones is C02's subject, not ours).
-func genOps(rng *lib.RNG, fs flowSpec, nsess, maxWrites int, serialAll bool) []op {
+// genOps draws a schedule: writes interleaved with releases of held actions and answers at sinks
+// that have an unanswered request (tracked with the reference semantics); every source has at
+// most `depth` writes in flight per process (1 = lock-step). In join workflows a source gets its
+// next write only after its previous one was answered (what a ManyToOneNode answers to a queued,
+// unpaired packet behind unanswered ones is C02's subject, not ours).
+func genOps(rng *lib.RNG, fs flowSpec, nsess, maxWrites, depth int) []op {
 	type st struct {
 		ip       *interp
 		pending  map[int][]int // per sink: write indices, oldest first
-		out      []int         // per write: outstanding arrivals
-		src      []int         // per write: its source
 		inflight map[int]int   // per source: writes not yet fully answered
+		counted  map[int]bool
 	}
 	sts := make([]*st, nsess)
 	for i := range sts {
-		sts[i] = &st{ip: newInterp(fs), pending: map[int][]int{}, inflight: map[int]int{}}
+		sts[i] = &st{ip: newInterp(fs), pending: map[int][]int{}, inflight: map[int]int{}, counted: map[int]bool{}}
 	}
-	serial := serialAll || len(fs.indices("join")) > 0
+	if len(fs.indices("join")) > 0 {
+		depth = 1
+	}
 	srcs, sinks := fs.indices("src"), fs.indices("sink")
 	var ops []op
 	writes := 0
-	for steps := 0; steps < 4*maxWrites+8; steps++ {
+	settle := func(s *st) {
+		for _, a := range s.ip.arrivals {
+			s.pending[a.sink] = append(s.pending[a.sink], a.write)
+		}
+		for w, ws := range s.ip.writes {
+			if s.counted[w] && ws.done() {
+				s.counted[w] = false
+				s.inflight[ws.src]--
+			}
+		}
+	}
+	for steps := 0; steps < 6*maxWrites+10; steps++ {
 		si := rng.Intn(nsess)
 		s := sts[si]
 		var ready []int
@@ -124,37 +146,37 @@ func genOps(rng *lib.RNG, fs flowSpec, nsess, maxWrites int, serialAll bool) []o
 				ready = append(ready, k)
 			}
 		}
+		held := s.ip.blocked()
 		var free []int
 		for _, k := range srcs {
-			if !serial || s.inflight[k] == 0 {
+			if s.inflight[k] < depth {
 				free = append(free, k)
 			}
 		}
-		if writes < maxWrites && len(free) > 0 && (len(ready) == 0 || rng.Chance(3, 5)) {
+		s.ip.clear()
+		canWrite := writes < maxWrites && len(free) > 0
+		switch {
+		case canWrite && (len(ready)+len(held) == 0 || rng.Chance(2, 5)):
 			o := op{kind: 'w', sess: si, node: lib.Pick(rng, free), v: rng.Range(0, 9)}
-			var arr []arrival
-			w := len(s.out)
-			s.ip.deliver(o.node, "", o.v, w, &arr)
-			s.out = append(s.out, len(arr))
-			s.src = append(s.src, o.node)
-			if len(arr) > 0 {
+			w := s.ip.write(o.node, o.v)
+			if !s.ip.writes[w].done() {
+				s.counted[w] = true
 				s.inflight[o.node]++
-			}
-			for _, a := range arr {
-				s.pending[a.sink] = append(s.pending[a.sink], a.write)
 			}
 			ops = append(ops, o)
 			writes++
-		} else if len(ready) > 0 {
+		case len(held) > 0 && (len(ready) == 0 || rng.Bool()):
+			n := lib.Pick(rng, held)
+			s.ip.finish(n)
+			ops = append(ops, op{kind: 'r', sess: si, node: n})
+		case len(ready) > 0:
 			k := lib.Pick(rng, ready)
 			w := s.pending[k][0]
 			s.pending[k] = s.pending[k][1:]
-			s.out[w]--
-			if s.out[w] == 0 {
-				s.inflight[s.src[w]]--
-			}
+			s.ip.writes[w].outstanding--
 			ops = append(ops, op{kind: 'a', sess: si, node: k})
 		}
+		settle(s)
 	}
 	return ops
 }
